@@ -17,10 +17,10 @@ theorem random_translated_pinned : Irismod.Gen.PureRandom.translated =
      "GetRand_seedTI_1(read_new_big_Int_SetBytes_SHA256_p_TxInitiator,seedBT)",
      "GetRand_seedSum_1(seedBT,seedBH)",
      "GetRand_seedSum_2(seedSum,seedTI)",
+     "GetRand_cond_1(p_Oracle)",
      "GetRand_seedOS_1(read_new_big_Int_SetBytes_SHA256_p_OracleSeed,seedBT)",
      "GetRand_seedSum_3(seedSum,seedOS)",
-     "GetRand_precision_1()",
-     "GetRand_cond_1(p_Oracle)"] := rfl
+     "GetRand_precision_1()"] := rfl
 
 /-- the seed sum of `GetRand`, composed from the translated assignments in source order (`hBH`, `hTI`, `hOS`: the
 digests of block hash, initiator and oracle seed as integers) -/
